@@ -165,7 +165,7 @@ func detRandomConfig(rng *vRNG, dynamic bool) detConfig {
 	}
 	c.Gap = rng.PickInt(1, 1, 2, 3, 5, 45)
 	in := c.interiorN()
-	c.Count = rng.PickInt(1, 1, 2, 3, in, in+1)
+	c.Count = rng.PickInt(1, 1, 2, 3, in, in+1) // count-thresh >= 1 (C07's domain; C09 adds 0 itself)
 	if rng.Chance(20) {
 		c.Count = rng.Range(1, in)
 	}
